@@ -1,15 +1,26 @@
-(* C05 -- Reads and writes are atomic under concurrency (partial: full linearizability of the
-   history is NOT proved; see below what is).
-   FULL STATEMENT (not proved): every read returns the value the key held at some instant between
-   call and return, and the final contents equal those of a sequential order of the writes that
-   respects real time.
-   PROVED: a read never fails because of a concurrent writer; every content it returns is the
-   complete, unmixed content of an item that was the value of the key at one of the read's own
-   lookup steps (the retry after a failed open is answered from the key's CURRENT state, under the
-   read lock); writes are applied one at a time under the exclusive state lock (the index is the
-   fold of the applied operations in lock order, by construction of the model). *)
+(* C05 -- Reads and writes are atomic under concurrency.
+   STATEMENT: every read returns the value the key held at some instant between its call and its
+   return (never a mixture, never a failure caused by a concurrent writer), and the final contents
+   equal those of a sequential order of the writes that respects real time.
+   PROVED (for every schedule of every set of thread programs of the concurrent model Conc.v):
+   - C05_read_never_fails, C05_read_returns_whole_indexed_content: no read fails, every returned
+     content is the complete content of an item that was the key's value at one of the read's own
+     lookup steps;
+   - C05_read_linearizable: a finished get(k) of thread t has a step q of t itself, strictly after
+     the step that took the call and not after the step that returned, at which the key map held
+     exactly what the read returned (absent / the item whose blob is the returned content);
+   - C05_final_contents_are_a_sequential_order_of_the_writes: when all threads have finished, the
+     key map equals the fold of a log of write operations in which every acknowledged writing call
+     has exactly one entry, placed strictly inside that call's interval (so the order respects
+     real time: C05_write_order_respects_real_time);
+   - C05_completed_put_is_visible: a get(k) taken after a put(k,x) returned yields x unless another
+     write to k was applied after that put.
+   Positions: [st i] is the state after the first i scheduled steps; step i is taken by thread
+   [who i]; starts_at s t j c / ends_at e t j r: step s takes t's j-th call c, step e appends its
+   result r.  What the model cannot exhibit: relaxed-memory effects and the fairness of the real
+   RwLock/Mutex implementations (the model interleaves whole lock-protected sections). *)
 From Cas Require Import Conc.
-From CasProofs Require Import ConcInv ConcProofs ConcReads ConcExamples.
+From CasProofs Require Import ConcInv ConcProofs ConcReads ConcExamples ConcLin.
 From CasProps Require Import ConcSetting.
 
 Theorem C05_read_never_fails :
@@ -22,7 +33,7 @@ Proof.
 Qed.
 Print Assumptions C05_read_never_fails.
 
-Theorem C05_read_returns_whole_indexed_content_partial :
+Theorem C05_read_returns_whole_indexed_content :
   forall H cmp nops thr0 cas0, ConcSetting H cmp thr0 cas0 ->
   forall g t ts g' ts' c, reachable H cmp nops thr0 cas0 g ->
     tget (g_thr g) t = Some ts -> cstep H cmp nops g t = Some g' -> tget (g_thr g') t = Some ts' ->
@@ -34,6 +45,90 @@ Proof.
   intros H cmp nops thr0 cas0 (A & B & C & D & E & F & G & I).
   exact (ConcProofs.C05_read_returns_indexed_content H cmp A B C D nops thr0 E cas0 F G I).
 Qed.
-Print Assumptions C05_read_returns_whole_indexed_content_partial.
+Print Assumptions C05_read_returns_whole_indexed_content.
 
+
+Theorem C05_read_linearizable :
+  forall H cmp nops thr0 cas0, ConcSetting H cmp thr0 cas0 ->
+  forall (sched : list nat) (t : nat) (cs : list ccall) (ts : tstate) (j : nat) (k : bytes) (r : cres),
+    In (t, cs) thr0 -> nth_error cs j = Some (KGet k) ->
+    tget (g_thr (crun H cmp nops (init_c thr0 cas0) sched)) t = Some ts ->
+    nth_error (t_res ts) j = Some r ->
+    exists s e q : nat,
+      starts_at H cmp nops thr0 cas0 sched s t j (KGet k) /\
+      ends_at H cmp nops thr0 cas0 sched e t j r /\
+      (s < q <= e)%nat /\
+      (r = CBytes None /\ val H cmp nops thr0 cas0 sched q k = None \/
+       (exists x : bytes,
+          r = CBytes (Some x) /\
+          val H cmp nops thr0 cas0 sched q k = Some (H x, len x) /\
+          sm_get lex_cmp (g_cas (st H cmp nops thr0 cas0 sched q)) (H x) = Some x)).
+Proof.
+  intros H cmp nops thr0 cas0 (A & B & C & D & E & F & G & I).
+  exact (ConcLin.C05_read_linearizable_thr0 H cmp A B C D nops thr0 E cas0 F G I).
+Qed.
+Print Assumptions C05_read_linearizable.
+
+Theorem C05_final_contents_are_a_sequential_order_of_the_writes :
+  forall H cmp nops thr0 cas0, ConcSetting H cmp thr0 cas0 ->
+  forall sched : list nat,
+    all_finished (crun H cmp nops (init_c thr0 cas0) sched) = true ->
+    let ws := wlog H cmp nops thr0 cas0 sched (NN sched) in
+    km (g_idx (crun H cmp nops (init_c thr0 cas0) sched)) = fold_left (kstep cmp) (map wl_o ws) [] /\
+    Sorted.StronglySorted lt (map wl_p ws) /\
+    (forall e : wlent, In e ws ->
+       exists (c : ccall) (s e' : nat) (r : cres),
+         nth_error (prog thr0 cas0 (wl_t e)) (wl_j e) = Some c /\
+         starts_at H cmp nops thr0 cas0 sched s (wl_t e) (wl_j e) c /\
+         ends_at H cmp nops thr0 cas0 sched e' (wl_t e) (wl_j e) r /\
+         (s < wl_p e < e')%nat /\ writes c r = true /\
+         op_of_call H cmp nops thr0 cas0 sched s (wl_p e) (wl_t e) c (wl_o e)) /\
+    (forall (t j : nat) (c : ccall) (r : cres),
+       nth_error (prog thr0 cas0 t) j = Some c ->
+       final_res H cmp nops thr0 cas0 sched t j r -> writes c r = true ->
+       exists e : wlent, In e ws /\ wl_t e = t /\ wl_j e = j) /\
+    (forall e1 e2 : wlent, In e1 ws -> In e2 ws -> wl_t e1 = wl_t e2 -> wl_j e1 = wl_j e2 -> e1 = e2).
+Proof.
+  intros H cmp nops thr0 cas0 (A & B & C & D & E & F & G & I).
+  exact (ConcLin.C05_final_is_linearization H cmp A B C D nops thr0 E cas0 F G I).
+Qed.
+Print Assumptions C05_final_contents_are_a_sequential_order_of_the_writes.
+
+Theorem C05_write_order_respects_real_time :
+  forall H cmp nops thr0 cas0, ConcSetting H cmp thr0 cas0 ->
+  forall (sched : list nat) (n : nat) (e1 e2 : wlent) (eA : nat) (rA : cres) (sB : nat) (cB : ccall),
+    (n <= NN sched)%nat ->
+    In e1 (wlog H cmp nops thr0 cas0 sched n) -> In e2 (wlog H cmp nops thr0 cas0 sched n) ->
+    ends_at H cmp nops thr0 cas0 sched eA (wl_t e1) (wl_j e1) rA ->
+    starts_at H cmp nops thr0 cas0 sched sB (wl_t e2) (wl_j e2) cB ->
+    (eA < sB)%nat -> (wl_p e1 < wl_p e2)%nat.
+Proof.
+  intros H cmp nops thr0 cas0 (A & B & C & D & E & F & G & I).
+  exact (ConcLin.C05_write_order_respects_real_time H cmp A B C D nops thr0 E cas0 F G I).
+Qed.
+Print Assumptions C05_write_order_respects_real_time.
+
+Theorem C05_completed_put_is_visible :
+  forall H cmp nops thr0 cas0, ConcSetting H cmp thr0 cas0 ->
+  forall (sched : list nat) (t j : nat) (k x : bytes) (e : nat) (rp : cres) (u ju s : nat) (ru : cres),
+    nth_error (prog thr0 cas0 t) j = Some (KPut k x) ->
+    ends_at H cmp nops thr0 cas0 sched e t j rp ->
+    nth_error (prog thr0 cas0 u) ju = Some (KGet k) ->
+    starts_at H cmp nops thr0 cas0 sched s u ju (KGet k) ->
+    (e < s)%nat ->
+    final_res H cmp nops thr0 cas0 sched u ju ru ->
+    exists p q eu : nat,
+      (p < e)%nat /\ ends_at H cmp nops thr0 cas0 sched eu u ju ru /\ (s < q <= eu)%nat /\
+      In {| wl_p := p; wl_t := t; wl_j := j; wl_o := RPut k (H x) (len x) |} (wlog H cmp nops thr0 cas0 sched q) /\
+      (ru = CBytes (Some x) \/
+       (exists e' : wlent, In e' (wlog H cmp nops thr0 cas0 sched q) /\ (p < wl_p e')%nat /\ touches (wl_o e') k)).
+Proof.
+  intros H cmp nops thr0 cas0 (A & B & C & D & E & F & G & I).
+  exact (ConcLin.C05_put_visible H cmp A B C D nops thr0 E cas0 F G I).
+Qed.
+Print Assumptions C05_completed_put_is_visible.
+
+(* both outcomes of a read racing an overwrite occur, each with its linearization point *)
+Example C05_race_new_value := ConcLin.race1_witness.
+Example C05_race_old_value := ConcLin.race2_witness.
 Example C05_nonvacuous := ConcExamples.C05_aba_now_returns_content.
